@@ -38,13 +38,17 @@ class Backend(object):
         return P
 
     def PauliList(self, gs, ps=None):
-        gs = np.asarray(gs).reshape(len(gs), -1)
+        gs = np.asarray(gs)
+        if gs.ndim != 2:
+            gs = gs.reshape(len(gs), -1)
         L = self.paulialg.PauliList(self.arr(gs))
         L.ps = self.arr(np.zeros(len(gs), dtype=np.int64) if ps is None else np.asarray(ps))
         return L
 
     def Poly(self, gs, ps, cs):
-        gs = np.asarray(gs).reshape(len(gs), -1)
+        gs = np.asarray(gs)
+        if gs.ndim != 2:
+            gs = gs.reshape(len(gs), -1)
         P = self.paulialg.PauliPolynomial(self.arr(gs))
         P.ps = self.arr(np.asarray(ps))
         P.cs = self.carr(cs)
